@@ -500,6 +500,12 @@ def op_points(env):
     columns = {lon_name: [repr(r[0]) for r in rows], lat_name: [repr(r[1]) for r in rows],
                'name': ['site%d' % i for i in range(len(rows))], 'val': [repr(round(float(v), 3)) for v in rng.uniform(0, 9, size=len(rows))],
                'n': [str(int(v)) for v in rng.integers(0, 99, size=len(rows))]}
+    if len(rows) >= 2 and chance(rng, 0.4):
+        # blank cells in the non-coordinate columns (a missing site name, a missing measurement): the row still is a point
+        obs.cls('points:csv-with-blank-cells')
+        for col in ('name', 'val', 'n'):
+            if chance(rng, 0.6):
+                columns[col][int(rng.integers(len(rows)))] = ''
     names = list(columns)
     names = [names[i] for i in rng.permutation(len(names))]
     csv = env.path('points.csv')
